@@ -83,17 +83,23 @@ class _RecIterable:
 
 
 class _FakeFile:
-    """File-like object for from_textfile: read() returns what was appended since the last read."""
+    """File-like object for from_textfile: an append-only text with a read position (read() returns what lies behind it)."""
 
     def __init__(self):
-        self.pending = ""
+        self.data = ""
+        self.pos = 0
 
     def read(self):
-        r, self.pending = self.pending, ""
+        r = self.data[self.pos:]
+        self.pos = len(self.data)
         return r
 
-    def seek(self, *a):
-        return 0
+    def seek(self, off, whence=0):
+        self.pos = (len(self.data) if whence == 2 else self.pos if whence == 1 else 0) + off
+        return self.pos
+
+    def tell(self):
+        return self.pos
 
     def close(self):
         pass
@@ -154,7 +160,8 @@ def run_impl(case, scratch):
             src = Stream.from_iterable(_RecIterable(case["items"], case["shared"], rec), **kw)
         elif kind == "textfile":
             fobj = _FakeFile()
-            src = Stream.from_textfile(fobj, poll_interval=POLL, **kw)
+            # from_end=True seeks to the end once, when the source is built (the file is still empty then: nothing is skipped)
+            src = Stream.from_textfile(fobj, poll_interval=POLL, from_end=bool(case.get("from_end")), **kw)
         elif kind == "filenames":
             d = os.path.join(scratch, "dir")
             os.makedirs(d)
@@ -215,7 +222,7 @@ def run_impl(case, scratch):
                     f.set_result(None)
             elif o == "w":
                 if kind == "textfile":
-                    fobj.pending += "L%d\n" % nw[0]
+                    fobj.data += "L%d\n" % nw[0]
                 elif kind == "filenames":
                     open(os.path.join(d, "f%03d" % nw[0]), "w").close()
                 nw[0] += 1
@@ -476,6 +483,8 @@ def gen_case(rng, kind=None):
         base = rng.choice([0, 0, 10])
         case["items"] = [base + i for i in range(n)]
         case["shared"] = rng.random() < 0.3
+    if kind == "textfile" and rng.random() < 0.5:
+        case["from_end"] = True          # tailing mode: the position is moved to the end when the source is BUILT, never again
     ops = []
     n_ops = rng.choice([4, 8, 12, 18, 26])
     started = False
